@@ -338,7 +338,7 @@ def gen_create(rng, avoid=1, vr=False, huge=False):
             pr = rng.choice([15, 16, 17, 20, 20.5, 21, 24, 28, 32, 33]); kv.append("prec=%s" % pr); m["prec"] = pr
     large = 8 + rng.below(13) if rng.below(2) else 17
     if simd and orr / float(ir) > 4 and large < 13 and avoid:
-        large = 13 + rng.below(8)               # keeps the random sweep clear of F5 (pinned cases hit it on purpose)
+        large = 8 + rng.below(13)               # the whole documented range 8..20 (F5, which made <= 12 unusable, is repaired)
     mn = 8 + rng.below(8) if rng.below(2) else 10
     kv += ["min=%d" % mn, "large=%d" % large]
     if rng.below(3) == 0: kv.append("kb=%d" % (100 + rng.below(701)))
@@ -580,7 +580,7 @@ def pinned_corpus(fmin):
                                                        "setratio 7.9 3000", "proc 1 0 1 20000 2000", "proc 1 0 1 20000 2000", "proc 0 0 0 0 5000"])
     # known findings, hit on purpose (avoid=0)
     add("F1 pinned: HQ phase 25, 1->128", ["create ir=1 or=128 ch=1 recipe=4 phase=25 itype=0 otype=0 avoid=0"] + ["proc 1 0 0 5000 700000"] * 8 + ["proc 0 0 0 0 700000"], expect="F1")
-    add("F5 pinned: LQ 1->8192 large=8", ["create ir=1 or=8192 ch=1 recipe=1 large=8 itype=0 otype=0 avoid=0", "proc 1 1 0 10 90000"], expect="F5")
+    add("F5-witness (fixed): LQ 1->8192 large=8", ["create ir=1 or=8192 ch=1 recipe=1 large=8 itype=0 otype=0 avoid=0", "proc 1 1 0 10 90000"])
     add("F36 pinned: VR 0.67 -> 8.77 at once, long call", ["create ir=16 or=1 ch=2 itype=0 otype=4 recipe=4 qflags=34 scale=2.5 avoid=0", "setratio 0.6712862513901316 0",
                                                         "setratio 8.772572708703153 1", "proc 1 0 0 1023 117", "proc 1 0 0 31850 10259", "proc 1 0 0 2048 481"], expect="F36")
     add("F14-witness (fixed): VR slew 4 -> 1.5", ["create ir=4 or=1 ch=1 recipe=4 qflags=32 itype=0 otype=0 avoid=0", "proc 1 0 1 1000 1000", "setratio 1.5 2000",
